@@ -215,3 +215,21 @@ for p in list(NOT_APPLICABLE):
         del NOT_APPLICABLE[p]
 for e in ENGINES:
     e['serves_properties'] = sorted(CHECKS)
+
+# ---- additions made while the checks were strengthened against seeded changes (DESIGN.md 10.6)
+_ADD = {
+ 'C02': 'Lists holding binary packets are also built from packet objects that were already encoded for other channels (6 encode histories).',
+ 'C03': 'Variants include backlogs of 17..40 messages, two overlapping opens with a slow connect handler, and an upgrade request whose socket is gone before the WebSocket accept.',
+ 'C05': 'Disconnect handlers also touch other sessions (kick a partner, send to a stale id); a disconnect() call that raises, or returns without having ended every session, is a violation. Line-granular preemption (sys.settrace) inside Socket.close for racing closers.',
+ 'C06': 'Histories also start after / consist of an upgrade attempt that died before the WebSocket accept; on a polling-only server every shape of the upgrade request (transport value x 4 spellings of the Upgrade value x 3 Connection values x with/without sid) is followed by the full handshake.',
+ 'C07': 'Also: upgrades straddling the first PING, peers that talk but never PONG, and peers stalled for ever between probe and UPGRADE (send after the deadline must drop them); a deep subset with free switching, two preemptions and line-granular scheduling inside _send_ping.',
+ 'C08': 'Early-reconnect scenarios: connect() again 3 s after the disconnect event, before the old connection\'s timers have run out; the second connection must last until its own read timeout.',
+ 'C10': 'The same conversations also run over a virtual network with a one-way delay (1/16..7/16 s; delay line in the combined world), with heartbeat settings that put PINGs inside the handshake and the upgrade; bursts followed by a hang-up.',
+ 'C11': 'A schedule search over two / three simultaneous opens with per-client handler duration and verdict: accepted ids stay usable, rejected ones unaddressable.',
+ 'C13': 'Request pairs on one server (forwarded headers or an allowed / case-variant / foreign Origin first) are judged on the second request alone, against the reference and differentially against a fresh server.',
+ 'C15': 'The alphabet includes a full batch of 16 sends; a second search root is the state after a completed upgrade; blocked-call signatures carry the queue-reader state so that known findings name exactly the (server, reader) pairs that block on the pinned tree.',
+ 'C16': 'A schedule search (free switching, <= 2 preemptions, scheduling points between creating, entering and leaving the session() context) over concurrent session() / save_session() / get_session() on two / three sessions.',
+}
+for _p, _t in _ADD.items():
+    CHECKS[_p]['text'] = CHECKS[_p]['text'].rstrip() + ' ' + _t
+CHECKS['C10']['note'] = 'The network between the two real implementations is virtual (ordered, lossless hand-over to the WSGI/ASGI gateways, in zero time or after a fixed one-way delay with round trip below ping_timeout); only sends that reached quiescence before the hang-up are owed.'
